@@ -18,6 +18,7 @@ var checks = map[string]func(*engine.Report){
 	"C13": engine.CheckC13,
 	"C18": engine.CheckC18,
 	"C17": engine.CheckC17,
+	"C14": engine.CheckC14,
 	"C15": engine.CheckC15,
 	"C16": engine.CheckC16,
 	"C02": engine.CheckC02,
@@ -55,6 +56,8 @@ func main() {
 		r := engine.NewReport(id, tier, seed)
 		f(r)
 		os.Exit(r.Finish())
+	case "warm":
+		engine.Warm()
 	case "c17worker":
 		i, _ := strconv.Atoi(os.Args[2])
 		n, _ := strconv.Atoi(os.Args[3])
